@@ -102,6 +102,8 @@ def design_flat(r, name):
         f = {"k": k, "kind": kind, "sname": f"s{k}" if s_named else str(k)}
         if kind == "ghost":
             f["const"] = 700 + k
+            # a bare #[ghost] member of a named struct: its value comes from the From instruction's `..update`
+            f["upd"] = s_named and r.random() < 0.35
         else:
             idx = len(a_members)
             if a_named:
@@ -120,7 +122,7 @@ def design_flat(r, name):
                 m.tags.append("tuple-hint-expression-without-index")
         s_fields.append(f)
     struct_ghost = a_named and r.random() < 0.4
-    extra = a_named and r.random() < 0.4
+    extra = a_named and r.random() < (0.7 if fallible else 0.4)
     if struct_ghost:
         a_members.append(("g", "i64"))
     if extra:
@@ -135,7 +137,9 @@ def design_flat(r, name):
     err = ", String" if fallible else ""
     pre = "try_" if fallible else ""
     # `..update` belongs to the Into side only (a From impl of a tuple struct cannot take it)
-    attrs = [f"#[{pre}from(A{hint}{err}{vtxt})]", f"#[{pre}into(A{hint}{err}{itxt})]", f"#[{pre}into_existing(A{hint}{err}{vtxt})]"]
+    from_upd = any(f.get("upd") for f in s_fields)
+    ftxt = " | " + ", ".join((["vars(v0: { 5 })"] if use_vars else []) + (["..mk_base()"] if from_upd else [])) if (use_vars or from_upd) else ""
+    attrs = [f"#[{pre}from(A{hint}{err}{ftxt})]", f"#[{pre}into(A{hint}{err}{itxt})]", f"#[{pre}into_existing(A{hint}{err}{vtxt})]"]
     if struct_ghost:
         attrs.append("#[ghosts(g: { 1100 })]")
     fsrc = []
@@ -143,8 +147,14 @@ def design_flat(r, name):
         fa = []
         same = s_named and a_named and f.get("aname") == f["sname"]
         tgt = f.get("aname")
-        if f["kind"] == "ghost":
+        if f["kind"] == "ghost" and f.get("upd"):
+            fa.append("#[ghost]")
+        elif f["kind"] == "ghost":
             fa.append(f"#[ghost({{ {f['const']} }})]")
+        elif f["kind"] == "rename" and fallible and extra and r.random() < 0.8:
+            # most-specific pick: in a fallible conversion the `try_` instruction wins over the plain one written first
+            fa.append("#[map(x)]")
+            fa.append(f"#[try_map({tgt})]")
         elif f["kind"] == "rename":
             fa.append(f"#[map({tgt})]")
         elif f["kind"] == "astype":
@@ -166,6 +176,8 @@ def design_flat(r, name):
         item = " ".join(attrs) + " pub struct S(" + ", ".join(fsrc) + ");"
     m.derive_src = item
     m.types.append(f"#[derive(o2o)] {DERIVES} " + item)
+    if from_upd:
+        m.types.append("pub fn mk_base() -> S { S { " + ", ".join(f"{f['sname']}: {800 + f['k']}" for f in s_fields) + " } }")
     # --- sample values and expectations
     aval = {nm: 10 * (i + 1) + 1 for i, (nm, _) in enumerate(a_members)}
     sval = {f["sname"]: 100 + f["k"] for f in s_fields}
@@ -182,7 +194,7 @@ def design_flat(r, name):
     exp_s = {}
     for f in s_fields:
         if f["kind"] == "ghost":
-            exp_s[f["sname"]] = f["const"]
+            exp_s[f["sname"]] = (800 + f["k"]) if f.get("upd") else f["const"]
         elif f["kind"] == "action":
             exp_s[f["sname"]] = aval[f["aname"]] * f["mul"]
         else:
@@ -220,6 +232,43 @@ def design_flat(r, name):
         m.tests.append(("existing_owned", f'let s = {s_lit}; let mut o = {lit(a_value(pre_exist))}; s.into_existing(&mut o); println!("{name} existing_owned {{:?}}", o);', dbg(a_value(exp_a(pre_exist)))))
         m.tests.append(("existing_ref", f'let s = {s_lit}; let mut o = {lit(a_value(pre_exist))}; (&s).into_existing(&mut o); println!("{name} existing_ref {{:?}}", o);', dbg(a_value(exp_a(pre_exist)))))
     return m
+
+
+def design_flat_perm(r, name):
+    """positional counterpart, members designated by index in another order (From direction only: the Into direction
+    of a positional counterpart ignores index renames on the pinned tree — known finding)"""
+    m = Module(name, "flat")
+    n = r.randrange(2, 5)
+    s_named = r.random() < 0.5
+    perm = list(range(n))
+    r.shuffle(perm)
+    fallible = r.random() < 0.3
+    pre, err = ("try_", ", String") if fallible else ("", "")
+    hint = " as ()" if s_named else ""
+    muls = [r.choice([None, None, 2, 3]) for _ in range(n)]
+    m.types.append(f"{DERIVES} pub struct A(" + ", ".join("pub i64" for _ in range(n)) + ");")
+    fsrc = []
+    for k in range(n):
+        att = f"#[from({perm[k]}, ~ * {muls[k]})]" if muls[k] else f"#[{r.choice(['from', 'map'])}({perm[k]})]"
+        fsrc.append(att + (f" pub s{k}: i64" if s_named else " pub i64"))
+    item = f"#[{pre}from(A{hint}{err})] pub struct S" + (" { " + ", ".join(fsrc) + " }" if s_named else "(" + ", ".join(fsrc) + ");")
+    m.derive_src = item
+    m.types.append(f"#[derive(o2o)] {DERIVES} " + item)
+    aval = [10 * (i + 1) + 1 for i in range(n)]
+    exp = [aval[perm[k]] * (muls[k] or 1) for k in range(n)]
+    sv = ("named", "S", [(f"s{k}", exp[k]) for k in range(n)]) if s_named else ("tuple", "S", exp)
+    a_lit = lit(("tuple", "A", aval))
+    if fallible:
+        m.tests.append(("from_owned", f'let a = {a_lit}; let r: Result<S, String> = S::try_from(a); println!("{name} from_owned {{:?}}", r);', dbg(("ok", sv))))
+        m.tests.append(("from_ref", f'let a = {a_lit}; let r: Result<S, String> = S::try_from(&a); println!("{name} from_ref {{:?}}", r);', dbg(("ok", sv))))
+    else:
+        m.tests.append(("from_owned", f'let a = {a_lit}; let r = S::from(a); println!("{name} from_owned {{:?}}", r);', dbg(sv)))
+        m.tests.append(("from_ref", f'let a = {a_lit}; let r = S::from(&a); println!("{name} from_ref {{:?}}", r);', dbg(sv)))
+    return m
+
+
+def design_flat_any(r, name):
+    return design_flat_perm(r, name) if r.random() < 0.15 else design_flat(r, name)
 
 
 # ------------------------------------------------------------------------------------------------
@@ -346,11 +395,25 @@ def design_enum(r, name):
     fallible = r.random() < 0.25
     pre = "try_" if fallible else ""
     err = ", String" if fallible else ""
+    # From-only programs may designate tuple payload positions in another order (index renames, with or without an
+    # expression); the Into direction of a positional counterpart ignores index renames (known finding), so these
+    # programs request From conversions only
+    from_only = r.random() < 0.3
+    if from_only:
+        for v in variants:
+            if v["shape"] == "tuple":
+                v["nf"] = r.randrange(2, 4)
+                v["fren"] = [False] * v["nf"]
+                v["perm"] = list(range(v["nf"]))
+                r.shuffle(v["perm"])
+                v["mul"] = [r.choice([None, None, 2, 3]) for _ in range(v["nf"])]
 
     def vdecl(v, side):
         nm = v["sname"] if side == "s" else v["aname"]
         if v["shape"] == "unit":
             return nm
+        if v["shape"] == "tuple" and side == "s" and v.get("perm"):
+            return nm + "(" + ", ".join((f"#[from({v['perm'][i]}, ~ * {v['mul'][i]})] " if v["mul"][i] else f"#[from({v['perm'][i]})] ") + "i64" for i in range(v["nf"])) + ")"
         if v["shape"] == "tuple":
             return nm + "(" + ", ".join("i64" for _ in range(v["nf"])) + ")"
         fl = []
@@ -360,7 +423,7 @@ def design_enum(r, name):
             fl.append(f"{att}{fn}: i64")
         return nm + " { " + ", ".join(fl) + " }"
     m.types.append(f"#[derive(Debug, Clone, PartialEq)] pub enum A {{ " + ", ".join(vdecl(v, "a") for v in variants) + " }")
-    item = f"#[{pre}map_owned(A{err})] pub enum S {{ " + ", ".join((f"#[map({v['aname']})] " if v["ren"] else "") + vdecl(v, "s") for v in variants) + " }"
+    item = f"#[{pre}{'from_owned' if from_only else 'map_owned'}(A{err})] pub enum S {{ " + ", ".join((f"#[map({v['aname']})] " if v["ren"] else "") + vdecl(v, "s") for v in variants) + " }"
     m.derive_src = item
     m.types.append("#[derive(o2o)] #[derive(Debug, Clone, PartialEq)] " + item)
 
@@ -380,6 +443,16 @@ def design_enum(r, name):
     for v in variants:
         a_in, s_in = val(v, "a", 10 * v["k"] + 1), val(v, "s", 100 + 10 * v["k"])
         es, ea = show(val(v, "s", 10 * v["k"] + 1)), show(val(v, "a", 100 + 10 * v["k"]))
+        if from_only:
+            if v.get("perm"):
+                base = 10 * v["k"] + 1
+                es = show(("tuple", "S::" + v["sname"], [(base + v["perm"][i]) * (v["mul"][i] or 1) for i in range(v["nf"])]))
+            k = v["k"]
+            if fallible:
+                m.tests.append((f"from_owned_{k}", f'let a = {lit(a_in)}; let r: Result<S, String> = S::try_from(a); println!("{name} from_owned_{k} {{:?}}", r);', wrap(es)))
+            else:
+                m.tests.append((f"from_owned_{k}", f'let a = {lit(a_in)}; let r = S::from(a); println!("{name} from_owned_{k} {{:?}}", r);', es))
+            continue
         if fallible:
             m.tests.append((f"from_owned_{v['k']}", f'let a = {lit(a_in)}; let r: Result<S, String> = S::try_from(a); println!("{name} from_owned_{v["k"]} {{:?}}", r);', wrap(es)))
             m.tests.append((f"into_owned_{v['k']}", f'let s = {lit(s_in)}; let r: Result<A, String> = s.try_into(); println!("{name} into_owned_{v["k"]} {{:?}}", r);', wrap(ea)))
@@ -438,7 +511,7 @@ def design_prim(r, name):
     return m
 
 
-FAMILIES = {"flat": design_flat, "tree": design_tree, "enum": design_enum, "prim": design_prim}
+FAMILIES = {"flat": design_flat_any, "tree": design_tree, "enum": design_enum, "prim": design_prim}
 
 
 # ------------------------------------------------------------------------------------------------
